@@ -138,6 +138,12 @@ func runAttempt(s *gobinlog.Streamer, m *simMaster, h *hist, mapper *tblMapper, 
 	}
 	ctx, cancel := context.WithCancel(context.Background())
 	defer cancel()
+	m.mu.Lock()
+	m.onQuery = nil
+	if o.refuse == "cancel-on-query" {
+		m.onQuery = cancel
+	}
+	m.mu.Unlock()
 	var inHandler, returned int32
 	var ncalls int32
 	release := make(chan struct{})
